@@ -236,36 +236,46 @@ Definition data_columns (l : list (str * str)) : str * str :=
                       else (dcol ++ 59%N :: snd p, scol ++ 59%N :: fst p)) l ([], [])
   end.
 
+(* the eleven columns from the id, the data columns, the kind of the target (0 = simple) and
+   its members; None = a simple target that is not exactly one selector (cannot be built) *)
+Definition assemble (idcol : str) (dc : str * str) (k : nat) (ms : list member) : option csvrow :=
+  match k, ms with
+  | 0, [m] =>
+      Some {| c_id := idcol; c_data := fst dc; c_set := snd dc; c_kind := kind_str (m_kind m);
+              c_res := m_res m; c_ann := m_ann m; c_dset := m_dset m; c_begin := m_begin m;
+              c_end := m_end m; c_key := m_key m; c_tdata := m_tdata m |}
+  | 0, _ => None
+  | k, _ =>
+      Some {| c_id := idcol; c_data := fst dc; c_set := snd dc;
+              c_kind := kind_str (complex_kind k) ++ push_all (map (fun m => kind_str (m_kind m)) ms);
+              c_res := push_all (map m_res ms); c_ann := push_all (map m_ann ms);
+              c_dset := push_all (map m_dset ms); c_begin := push_all (map m_begin ms);
+              c_end := push_all (map m_end ms); c_key := push_all (map m_key ms);
+              c_tdata := push_all (map m_tdata ms) |}
+  end.
+
+(* the (data set, data) names of the data of an annotation *)
+Definition data_names (s : store) (a : ann) : option (list (str * str)) :=
+  map_opt (fun dx => match get_set s (fst dx) with
+                     | Some ds => match slot (d_data ds) (snd dx) with
+                                  | Some it => Some (name_set (d_id ds), data_ident (snd dx) it)
+                                  | None => None
+                                  end
+                     | None => None
+                     end) (a_data a).
+
+(* the Id column: an annotation without data is written with its temporary id when it has no
+   public one, an annotation with data with an empty field *)
+Definition id_column (h : nat) (a : ann) : str :=
+  match a_data a with
+  | [] => ann_ident h a
+  | _ => match a_id a with Some t => name_ann t | None => [] end
+  end.
+
 (* one row of the Annotation table; None = panic of the writer *)
 Definition pack_row (s : store) (h : nat) (a : ann) : option csvrow :=
-  match map_opt (leaf_member s) (a_leaves a),
-        map_opt (fun dx => match get_set s (fst dx) with
-                           | Some ds => match slot (d_data ds) (snd dx) with
-                                        | Some it => Some (name_set (d_id ds), data_ident (snd dx) it)
-                                        | None => None
-                                        end
-                           | None => None
-                           end) (a_data a) with
-  | Some ms, Some ds =>
-      let idcol := match a_data a with
-                   | [] => ann_ident h a
-                   | _ => match a_id a with Some t => name_ann t | None => [] end
-                   end in
-      let dc := data_columns ds in
-      match a_kind a, ms with
-      | 0, [m] =>
-          Some {| c_id := idcol; c_data := fst dc; c_set := snd dc; c_kind := kind_str (m_kind m);
-                  c_res := m_res m; c_ann := m_ann m; c_dset := m_dset m; c_begin := m_begin m;
-                  c_end := m_end m; c_key := m_key m; c_tdata := m_tdata m |}
-      | 0, _ => None
-      | k, _ =>
-          Some {| c_id := idcol; c_data := fst dc; c_set := snd dc;
-                  c_kind := kind_str (complex_kind k) ++ push_all (map (fun m => kind_str (m_kind m)) ms);
-                  c_res := push_all (map m_res ms); c_ann := push_all (map m_ann ms);
-                  c_dset := push_all (map m_dset ms); c_begin := push_all (map m_begin ms);
-                  c_end := push_all (map m_end ms); c_key := push_all (map m_key ms);
-                  c_tdata := push_all (map m_tdata ms) |}
-      end
+  match map_opt (leaf_member s) (a_leaves a), data_names s a with
+  | Some ms, Some ds => assemble (id_column h a) (data_columns ds) (a_kind a) ms
   | _, _ => None
   end.
 
@@ -285,19 +295,9 @@ Definition save (s : store) : option files :=
 
 (** * Reading *)
 
-(* TryInto<AnnotationBuilder> for AnnotationCsv as it is now: the block that reads the target
-   columns no longer sits inside `if !self.data_ids.is_empty()`.  The decoder of Loader.v is
-   run on the row with a placeholder in the data column, which selects its target branch;
-   the data list is empty *)
-Definition with_data (r : csvrow) (d : str) : csvrow :=
-  {| c_id := c_id r; c_data := d; c_set := c_set r; c_kind := c_kind r; c_res := c_res r; c_ann := c_ann r;
-     c_dset := c_dset r; c_begin := c_begin r; c_end := c_end r; c_key := c_key r; c_tdata := c_tdata r |}.
-
-Definition csv_row_now (r : csvrow) : outcome Loader.abuild :=
-  if is_empty (c_data r) then
-    bind (csv_row false (with_data r [120%N]))
-         (fun b => Ok {| Loader.ab_id := Loader.ab_id b; Loader.ab_data := []; Loader.ab_target := Loader.ab_target b |})
-  else csv_row false r.
+(* TryInto<AnnotationBuilder> for AnnotationCsv as it is now (Model/Loader.v, after the repair
+   62b1571 of this property: the target columns are read whether or not the row has data) *)
+Definition csv_row_now (r : csvrow) : outcome Loader.abuild := csv_row false r.
 
 (* the token of an ordinary id: the letter, then the canonical decimal *)
 Definition parse_tok (letter : N) (s : str) : option nat :=
